@@ -13,6 +13,14 @@ def subtree (s : Forest) : Nat → Nat → List Nat
   | 0, _ => []
   | k + 1, o => o :: (s.children o).flatMap (subtree s k)
 
+/-- `check_format_input_obj(self, allow, recursive=True)` — the `children_all` / `sources_all` / `sensors_all` /
+`collections_all` views: every child of a wanted type is appended, and a child that is a Collection is descended
+into right after (fuel-bounded; the code recurses without a bound) -/
+def flatAll (s : Forest) (want : Kind → Bool) : Nat → Nat → List Nat
+  | 0, _ => []
+  | k + 1, c => (s.children c).flatMap fun o =>
+      (if want (s.kind o) then [o] else []) ++ (if s.kind o = .coll then flatAll s want k o else [])
+
 /-- `obj.copy()`: clone the subtree of `o`; clone of the i-th subtree node gets id `n + i`;
 links inside the subtree are redirected to the clones, the clone of `o` has no parent. -/
 def copy (s : Forest) (o : Nat) : Forest :=
